@@ -442,6 +442,65 @@ enum Flow {
     Stop,
 }
 
+/// Node-level scenario: a restart moves the tip by no block.  A test-network node created without
+/// checkpoints follows the chain from the genesis block (what a signer that is still catching up,
+/// or one started by a binary that carries a newer checkpoint, looks like: its height is below the
+/// latest compiled-in checkpoint); after `blocks` validated and persisted blocks it is restarted
+/// (`restarts` = 1 + variant % 3 times) from its store: height, tip, tip filter header and the
+/// remembered headers must be what they were, and the next block must still connect.
+fn run_node_position(blocks: u8, variant: u8, st: &mut CaseStats, ctx: &Ctx) -> Result<(), Violation> {
+    use lightning_signer::util::test_utils::make_testnet_header;
+    let mut cfg = crate::world::WorldCfg::default_testnet();
+    cfg.no_checkpoints = true;
+    let mut w = crate::world::World::new(cfg);
+    let connect = |w: &crate::world::World| -> Result<(), String> {
+        let node = w.node.clone();
+        let mut tracker = node.get_tracker();
+        let (header, proof) = make_testnet_header(tracker.tip(), tracker.height());
+        tracker.add_block(header, proof).map_err(|e| format!("{:?}", e))?;
+        node.get_persister().update_tracker(&node.get_id(), &tracker).map_err(|e| format!("{:?}", e))
+    };
+    if w.node.get_tracker().height() != 0 {
+        st.class("node-position:not-at-genesis");
+        return Ok(());
+    }
+    let blocks = blocks.max(1);
+    for _ in 0..blocks {
+        if let Err(e) = connect(&w) {
+            st.class(format!("node-position:block-refused:{}", e.chars().take(30).collect::<String>()));
+            return Ok(());
+        }
+    }
+    let view = |w: &crate::world::World| {
+        let t = w.node.get_tracker();
+        (t.height(), t.tip().0.block_hash(), t.tip().1, t.headers().iter().map(|h| h.0.block_hash()).collect::<Vec<_>>())
+    };
+    let before = view(&w);
+    let restarts = 1 + variant % 3;
+    for _ in 0..restarts {
+        if !w.restart().is_ok() {
+            st.class("node-position:restart-failed");
+            return Ok(());
+        }
+    }
+    let after = view(&w);
+    st.class(format!("node-position:blocks{}:restarts{}", blocks, restarts));
+    st.nontrivial_shape(("node-position", blocks, restarts));
+    if before != after {
+        return ctx.report(st, Violation::new(
+            "C13:tip-moved-without-a-block:node-restart",
+            format!("a node that had validated {} block(s) from the genesis block was at height {} (tip {}); after {} restart(s) from its store it is at height {} (tip {}) although no block was added or removed", blocks, before.0, before.1, restarts, after.0, after.1),
+        ));
+    }
+    if let Err(e) = connect(&w) {
+        return ctx.report(st, Violation::new(
+            "C13:valid-block-refused-after-node-restart",
+            format!("after {} restart(s) at height {} the next valid block is refused: {}", restarts, before.0, e),
+        ));
+    }
+    Ok(())
+}
+
 /// Node-level scenario: the oracle set a node validates blocks against must survive a restart.
 /// `variant % 3`: 0 = restart, then a block attested by an untrusted key only; 1 = restart, then a
 /// properly attested block; 2 = no restart, untrusted attestation.  `variant / 3 % 2 == 1`: wire
@@ -451,6 +510,9 @@ enum Flow {
 /// which persists the tracker itself).  The handler answers a refused block with a panic, which
 /// is not an acceptance.
 fn run_node_restore(blocks: u8, variant: u8, st: &mut CaseStats, ctx: &Ctx) -> Result<(), Violation> {
+    if variant >= 6 {
+        return run_node_position(blocks, variant - 6, st, ctx);
+    }
     use crate::chainpool::{make_block, make_proof, regtest_cfg, wire_add_with, ChainSim, Deliver, WireLog};
     use crate::props::proto::{Negotiation, ProtoWorld};
     use lightning_signer::bitcoin::key::Keypair;
@@ -1216,7 +1278,7 @@ impl Prop for C13 {
             0u8..3,
             prop_oneof![4 => Just(false), 1 => Just(true)],
             proptest::collection::vec(op_strat(), 1..=n),
-            prop_oneof![40 => Just(None), 1 => (1u8..4, 0u8..6).prop_map(Some)],
+            prop_oneof![40 => Just(None), 1 => (1u8..4, 0u8..9).prop_map(Some)],
         )
             .prop_map(|(start, oracles, listeners, allow_deep, ops, node_restore)| {
                 if node_restore.is_some() {
@@ -1280,7 +1342,7 @@ impl Prop for C13 {
         ]
         .into_iter()
         // the node-level scenario in each of its variants (tracker API and wire delivery)
-        .chain((0u8..6).map(|variant| Case { start: Start::Genesis, oracles: 1, listeners: 0, allow_deep: false, ops: vec![], node_restore: Some((2, variant)) }))
+        .chain((0u8..7).map(|variant| Case { start: Start::Genesis, oracles: 1, listeners: 0, allow_deep: false, ops: vec![], node_restore: Some((2, variant)) }))
         .collect()
     }
     fn run(&self, case: &Case, st: &mut CaseStats, ctx: &Ctx) -> Result<(), Violation> {
